@@ -617,11 +617,57 @@ func init() {
 								}
 							}
 						}
+						// a bound on one factor does not bound a product with another
+						// input-dependent quantity
+						if badv == nil {
+							for _, s := range sizes {
+								if s == nil {
+									continue
+								}
+								mul, ok := stripConv(s).(*ssa.BinOp)
+								if !ok || mul.Op != token.MUL {
+									continue
+								}
+								_, c1 := constInt(mul.X)
+								_, c2 := constInt(mul.Y)
+								if c1 || c2 {
+									continue
+								}
+								streamy := func(v ssa.Value) bool {
+									for x := range backwardCalls(v) {
+										if tv != nil && tv[x] {
+											return true
+										}
+									}
+									return false
+								}
+								lenOfDecoded := func(v ssa.Value) bool {
+									x := lenArgOf(v)
+									if x == nil {
+										return false
+									}
+									for y := range backward(x, nil) {
+										if c, ok := y.(*ssa.Call); ok {
+											if sc := c.Call.StaticCallee(); sc != nil && t.H[sc] {
+												return true
+											}
+										}
+									}
+									return false
+								}
+								if (streamy(mul.X) && (streamy(mul.Y) || lenOfDecoded(mul.Y))) || (streamy(mul.Y) && lenOfDecoded(mul.X)) {
+									r.bad(key, p.Rel(in.Pos()), what, fmt.Sprintf("the size is a product %s × %s of a (capped) count from the stream and another input-dependent quantity: each factor is bounded on its own, the allocation is not in proportion to the input", mul.X.Name(), mul.Y.Name()))
+									badv = nil
+									goto next
+								}
+							}
+						}
 						if badv != nil {
 							r.bad(key, p.Rel(in.Pos()), what, fmt.Sprintf("size operand %s derives from a 32/64-bit count read from the input and no comparison bounds it before the allocation", badv.Name()))
 						} else {
 							r.ok(key, p.Rel(in.Pos()), what)
 						}
+					next:
 					}
 				}
 			}
